@@ -14,8 +14,10 @@
 (*              counts: sequence of <<outcome index, count>> resp.         *)
 (*              <<value n, value d, count>>; sample: sequence of bit rows  *)
 (*              resp. of <<n, d>>; with bins: the sequence of those.       *)
-(* TLC recomputes the result from X with FromSamples.tla and prints        *)
-(*   <<"V", tid, "ok" | "ok-strided" | "mismatch" | "malformed">>.         *)
+(* The file is read once; Split hands one chunk of the records to each of   *)
+(* NCHUNKS successor states (validated in parallel); Check recomputes each  *)
+(* result from X with FromSamples.tla and prints, for EVERY record,         *)
+(*   <<"V", record number, "ok" | "ok-strided" | "mismatch" | "malformed">>. *)
 (* With bin_size the statement does not say which shots form a bin: both   *)
 (* partitions an implementation can sensibly use (consecutive / strided)   *)
 (* are accepted; "ok-strided" is reported separately (mechanism, not a     *)
